@@ -227,3 +227,143 @@ def possibly_unbound_in_handlers(ctx, fn):
             if wit is not None:
                 out.append((x, h))
     return out
+
+
+def possibly_unbound_reads(ctx, fn):
+    """[(name, Name node)] - reads of a local of `fn` that some path from the function entry reaches without any of the
+    statements binding that local having completed (an exceptional edge leaves a statement before its effect).  Path
+    insensitive: correlated conditions (`if a: x = ..` ... `if a: use(x)`) are reported too; callers keep a reasoned table
+    of such idioms."""
+    g = ctx.cfg(fn)
+    params = {a.arg for a in fn.args.args + fn.args.kwonlyargs + getattr(fn.args, "posonlyargs", [])}
+    if fn.args.vararg:
+        params.add(fn.args.vararg.arg)
+    if fn.args.kwarg:
+        params.add(fn.args.kwarg.arg)
+    binders = {}
+
+    def add(name, node):
+        binders.setdefault(name, set()).add(node)
+
+    declared = set()
+    for n in g.nodes:
+        a = n.ast
+        if a is None:
+            continue
+        if n.kind == "stmt":
+            if isinstance(a, (ast.Assign, ast.AugAssign, ast.AnnAssign)):
+                for t in (a.targets if isinstance(a, ast.Assign) else [a.target]):
+                    for x in walk(t):
+                        if isinstance(x, ast.Name) and isinstance(x.ctx, ast.Store):
+                            add(x.id, n)
+            if isinstance(a, (ast.FunctionDef, ast.AsyncFunctionDef, ast.ClassDef)):
+                add(a.name, n)
+            if isinstance(a, (ast.Import, ast.ImportFrom)):
+                for al in a.names:
+                    add((al.asname or al.name).split(".")[0], n)
+            if isinstance(a, ast.With):
+                for it in a.items:
+                    if it.optional_vars is not None:
+                        for x in walk(it.optional_vars):
+                            if isinstance(x, ast.Name):
+                                add(x.id, n)
+            if isinstance(a, (ast.Global, ast.Nonlocal)):
+                declared.update(a.names)
+            if not isinstance(a, (ast.If, ast.While, ast.For, ast.Try, ast.With, ast.FunctionDef, ast.AsyncFunctionDef, ast.ClassDef)):
+                for x in walk(a):
+                    if isinstance(x, ast.NamedExpr) and isinstance(x.target, ast.Name):
+                        add(x.target.id, n)
+        if n.kind == "handler" and isinstance(a, ast.ExceptHandler) and a.name:
+            add(a.name, n)
+    for st in walk(fn):
+        if isinstance(st, ast.For):
+            for x in walk(st.target):
+                if isinstance(x, ast.Name):
+                    for n in g.nodes_of(st) + g.nodes_of(st.iter) + g.nodes_of(st.target):
+                        add(x.id, n)
+    comp_names = set()
+    for c in walk(fn):
+        if isinstance(c, (ast.ListComp, ast.SetComp, ast.DictComp, ast.GeneratorExp)):
+            for gen in c.generators:
+                for x in walk(gen.target):
+                    if isinstance(x, ast.Name):
+                        comp_names.add(x.id)
+    locals_ = set(binders) - params - declared
+    out = []
+    for n in g.nodes:
+        a = n.ast
+        if a is None or n.kind not in ("stmt", "test"):
+            continue
+        if isinstance(a, ast.For):
+            exprs = [a.iter]
+        elif isinstance(a, (ast.If, ast.While)):
+            exprs = [a.test]
+        elif isinstance(a, ast.With):
+            exprs = [it.context_expr for it in a.items]
+        elif isinstance(a, (ast.Try, ast.FunctionDef, ast.AsyncFunctionDef, ast.ClassDef)):
+            exprs = []
+        else:
+            exprs = [a]
+        names = {}
+        for e in exprs:
+            for x in walk(e):
+                if isinstance(x, ast.Name) and isinstance(x.ctx, ast.Load) and x.id in locals_ and x.id not in comp_names:
+                    names.setdefault(x.id, x)
+        if isinstance(a, ast.AugAssign) and isinstance(a.target, ast.Name) and a.target.id in locals_:
+            names.setdefault(a.target.id, a.target)
+        for name, x in names.items():
+            b = binders[name]
+            wit = g.must_pass(set(), sinks={n}, avoid_edges=lambda p, q, lab, _b=b: p in _b and lab != "exc")
+            if wit is not None:
+                out.append((name, x))
+    return out
+
+
+def undefined_names(ctx, fi):
+    """[(name, Name node)] - names read in the function that are bound nowhere: not a parameter or local of this or an
+    enclosing function, not a class-body name of an enclosing class body being executed, not a module-level symbol
+    (definitions, imports, star imports) and not a builtin.  Reading one raises NameError."""
+    import builtins
+
+    fn = fi.node
+    module = fi.module
+
+    def scope_names(f):
+        names = set()
+        a = f.args
+        for x in a.args + a.kwonlyargs + getattr(a, "posonlyargs", []):
+            names.add(x.arg)
+        if a.vararg:
+            names.add(a.vararg.arg)
+        if a.kwarg:
+            names.add(a.kwarg.arg)
+        for n in ast.walk(f):
+            if isinstance(n, ast.Name) and isinstance(n.ctx, (ast.Store, ast.Del)):
+                names.add(n.id)
+            elif isinstance(n, (ast.FunctionDef, ast.AsyncFunctionDef, ast.ClassDef)) and n is not f:
+                names.add(n.name)
+            elif isinstance(n, ast.ExceptHandler) and n.name:
+                names.add(n.name)
+            elif isinstance(n, (ast.Import, ast.ImportFrom)):
+                for al in n.names:
+                    names.add((al.asname or al.name).split(".")[0])
+            elif isinstance(n, ast.arg):
+                names.add(n.arg)
+        return names
+
+    known = scope_names(fn)
+    p = getattr(fn, "_parent", None)
+    while p is not None:
+        if isinstance(p, (ast.FunctionDef, ast.AsyncFunctionDef)):
+            known |= scope_names(p)
+        p = getattr(p, "_parent", None)
+    out = []
+    # decorators, defaults and annotations are evaluated in the enclosing scope: only the body is this function's code
+    for n in [x for st in fn.body for x in ast.walk(st)]:
+        if isinstance(n, ast.Name) and isinstance(n.ctx, ast.Load) and n.id not in known:
+            if hasattr(builtins, n.id) or n.id in ("__class__", "__module__", "__qualname__", "__name__", "__file__", "__doc__"):
+                continue
+            if ctx.model.resolve(module.name, n.id) is not None:
+                continue
+            out.append((n.id, n))
+    return out
